@@ -98,7 +98,8 @@ def engine_quirk(ex, case, ref=None):
             or "produces broadcasting column" in msg):
         if _scalar_shapes(case):
             return "polars_scalar_broadcast"
-    if exc_name(ex) == "InvalidOperationError" and "`clip` only supports physical numeric types" in msg and (
+    if exc_name(ex) == "InvalidOperationError" and ("`clip` only supports physical numeric types" in msg
+                                                    or "can only be used on numeric types" in msg) and (
             any(len(t["rows"]) == 0 for t in case["tables"]) or (ref is not None and any(t.n == 0 for t in ref.vars.values()))):
         return "polars_empty_frame_null_dtype"  # the clipped column of an empty result is Null-typed
     if exc_name(ex) in ("InvalidOperationError", "PanicException", "SchemaError", "ComputeError") and (
@@ -178,6 +179,28 @@ def polars_null_compare_in_agg_quirk(case):
             if nd[0] == "fn" and nd[1] in (AGG_OPS | WIN_OPS) and has_null_cmp(nd):
                 return True
     return False
+
+
+def polars_scalar_in_agg_quirk(case):
+    """Polars 1.44 keeps `max_horizontal(lit, when(c).then(lit).otherwise(col))` (any horizontal function with a
+    literal argument next to a when/then chain with a literal branch value) as a length-1 scalar when it is evaluated
+    inside an aggregation: `df.select(pl.max_horizontal(pl.lit(7), w).sum())` returns 7 for three rows whose row-wise
+    maximum is 7 each (reproduced with plain Polars, DESIGN 4.15 l).  Shape: an aggregate / window function whose
+    arguments or context arguments contain such a horizontal call."""
+    from .ir import AGG_OPS, WIN_OPS, step_exprs, walk_expr
+
+    def lit_branch(e):
+        return any(nd[0] == "case" and any(_no_col(v) for v in [v for _, v in nd[1]] + ([nd[2]] if nd[2] is not None else []))
+                   for nd in walk_expr(e))
+
+    def shape(e):
+        return any(nd[0] == "fn" and nd[1] in ("hmax", "hmin", "hsum", "hany", "hall", "coalesce", "fill_null")
+                   and any(_no_col(a) for a in nd[2]) and any(lit_branch(a) for a in nd[2]) for nd in walk_expr(e))
+
+    exprs = [e for s in case.get("steps", []) for e in step_exprs(s)]
+    if isinstance(case.get("expr"), dict) and "expr" in case["expr"]:
+        exprs.append(case["expr"]["expr"])
+    return any(nd[0] == "fn" and nd[1] in (AGG_OPS | WIN_OPS) and shape(nd) for e in exprs for nd in walk_expr(e))
 
 
 def polars_agg_list_quirk(case, df):
@@ -370,6 +393,11 @@ def examine_pipeline(case, out: Outcome, *, backends=("polars", "sqlite"), ref_c
                     out.count("engine_quirk:polars_null_compare_in_agg")
                     run.frames.pop((kind, rv), None)
                     run.prefix_quirk = run.prefix_quirk or "polars_null_compare_in_agg"
+                    continue
+                if kind == "polars" and polars_scalar_in_agg_quirk(run.case2):
+                    out.count("engine_quirk:polars_scalar_in_agg")
+                    run.frames.pop((kind, rv), None)
+                    run.prefix_quirk = run.prefix_quirk or "polars_scalar_in_agg"
                     continue
                 if kind == "polars" and _noopt_agrees(b.vars[rv], lambda d: oracle.compare_ref(run.ref.vars[rv], d, view=view)):
                     out.count("engine_quirk:polars_optimizer")
